@@ -713,10 +713,10 @@ def custom_pad_left(lhs, rhs, other, ctx):
     """
     if isinstance(lhs, (list, LazyList)):
         return vectorise(custom_pad_left, lhs, rhs, other)
-    if isinstance(rhs, int):
-        return lhs.ljust(rhs, other)
-    if isinstance(other, int):
-        return lhs.ljust(other, rhs)
+    if vy_type(rhs) == NUMBER_TYPE:
+        return lhs.ljust(int(rhs), other)
+    if vy_type(other) == NUMBER_TYPE:
+        return lhs.ljust(int(other), rhs)
 
 
 def custom_pad_right(lhs, rhs, other, ctx):
@@ -727,10 +727,10 @@ def custom_pad_right(lhs, rhs, other, ctx):
     """
     if isinstance(lhs, (list, LazyList)):
         return vectorise(custom_pad_right, lhs, rhs, other)
-    if isinstance(rhs, int):
-        return lhs.rjust(rhs, other)
-    if isinstance(other, int):
-        return lhs.rjust(other, rhs)
+    if vy_type(rhs) == NUMBER_TYPE:
+        return lhs.rjust(int(rhs), other)
+    if vy_type(other) == NUMBER_TYPE:
+        return lhs.rjust(int(other), rhs)
 
 
 def decrement(lhs, ctx):
